@@ -70,7 +70,7 @@ var allTpls = []int{tplLit, tplVar, tplMeta, tplOrdered, tplMax, tplOverdraftBou
 var profiles = map[string]Profile{
 	// C02: scarce funds, many spenders, every way of naming a source
 	"spend": {Name: "spend", MaxClients: 5, MaxOps: 3, MaxGens: 1, MaxLedgers: 1, WKind: [5]int{12, 3, 2, 2, 0},
-		Tpls:  []int{tplLit, tplVar, tplMeta, tplOrdered, tplMax, tplOverdraftBounded, tplAll, tplBalance, tplTwoSends, tplSplit, tplLit, tplVar, tplMeta, tplOrderedVars, tplOrderedVars, tplSaveVar, tplFallbackWorld, tplFallbackOverdraft, tplFeeVars, tplFeeVars},
+		Tpls:  []int{tplLit, tplVar, tplMeta, tplOrdered, tplMax, tplOverdraftBounded, tplAll, tplBalance, tplTwoSends, tplSplit, tplLit, tplVar, tplMeta, tplOrderedVars, tplOrderedVars, tplSaveVar, tplFallbackWorld, tplFallbackOverdraft, tplFeeVars, tplFeeVars, tplFeeVars},
 		IKPct: 0, RefPct: 0, DryPct: 3, CancelBlockedPct: 10, IKPool: 2, RefPool: 2, TargetPool: 3, FundMax: 12, AmountMax: 12},
 	// C02: one script text, many bindings -- whatever a request does to the cached, shared program
 	// (or to anything else that outlives it) meets the next requests using the same text
@@ -218,7 +218,7 @@ func genOp(t *rapid.T, p *Profile, cfg *Config) Op {
 		op.Src, op.Src2, op.Dst, op.Dst2 = acct("src"), acct("src2"), acct("dst"), acct("dst2")
 		// the same account reached through two resources of one script (two variables, a
 		// variable and a literal): aliasing is where per-resource bookkeeping goes wrong
-		if pct(t, 25, "aliasSrc") {
+		if pct(t, 30, "aliasSrc") {
 			op.Src2 = op.Src
 		}
 		wv := p.WorldVarPct
